@@ -24,7 +24,7 @@ def canon_dump(d):
 def corruptions(rng, wf):
     """single-point corruptions of a valid abstract workflow: (kind, wf')"""
     out = []
-    ids = list(wf['steps'])
+    ids = [s for s in wf['steps'] if wf['steps'][s]['kind'] == 'plugin']      # (loop steps are left as they are)
 
     def clone():
         return copy.deepcopy(wf)
